@@ -62,6 +62,7 @@ pub fn block_size() -> BoxedStrategy<Option<u64>> {
     prop_oneof![
         2 => Just(None),
         10 => (0..BLOCK_SIZES.len()).prop_map(|i| Some(BLOCK_SIZES[i])),
+        3 => prop_oneof![1u64..100, 100u64..70000, 70000u64..(1u64 << 21), Just(1_000_000u64), Just(999_999u64), Just(1_000_001u64)].prop_map(Some),
     ]
     .boxed()
 }
